@@ -311,6 +311,25 @@ def hand_written():
                                "terms": [{"take": None, "factors": [T("T", "m"), T("D", "n", "m")]}]}],
                   "mapping": {"rank-order": {"D": ["M", "N"]}, "loop-order": {},
                               "partitioning": {"Z": {"M": ["uniform_shape(3)"]}}}})
+    # a product written first, a take() with another rank order after it
+    specs.append({"decl": {"Z": [], "B": ["M", "J", "K"], "D": ["Q", "M"], "C": ["Q", "K"], "E": ["K", "J", "M"]},
+                  "einsums": [{"out": "Z", "oidx": [], "terms": [
+                      {"take": None, "factors": [T("B", "m", "j", "k"), T("D", "q", "m")]},
+                      {"take": 1, "factors": [T("C", "q", "k"), T("E", "k", "j", "m")]}]}],
+                  "mapping": {"rank-order": {}, "loop-order": {}, "partitioning": {}}})
+    # the leading loop rank split into four levels; three contracted ranks written in non-alphabetical order
+    specs.append({"decl": {"Z": ["N"], "A": ["N", "Q", "K", "J"], "B": ["J", "Q"]},
+                  "einsums": [{"out": "Z", "oidx": [[[None, "n"]]], "terms": [
+                      {"take": None, "factors": [T("A", "n", "q", "k", "j"), T("B", "j", "q")]}]}],
+                  "mapping": {"rank-order": {}, "loop-order": {},
+                              "partitioning": {"Z": {"N": ["uniform_shape(8)", "uniform_shape(4)", "uniform_shape(2)"]}}}})
+    # cascade of three: the first two partitioned, the last one not
+    specs.append({"decl": {"T": ["M"], "A": ["K", "M"], "U2": ["M"], "B": ["M", "K"], "Z": ["M"], "C": ["K", "M"]},
+                  "einsums": [{"out": "T", "oidx": [[[None, "m"]]], "terms": [{"take": None, "factors": [T("A", "k", "m")]}]},
+                              {"out": "U2", "oidx": [[[None, "m"]]], "terms": [{"take": None, "factors": [T("T", "m"), T("B", "m", "k")]}]},
+                              {"out": "Z", "oidx": [[[None, "m"]]], "terms": [{"take": None, "factors": [T("U2", "m"), T("C", "k", "m")]}]}],
+                  "mapping": {"rank-order": {}, "loop-order": {},
+                              "partitioning": {"T": {"K": ["uniform_shape(4)"]}, "U2": {"K": ["uniform_shape(2)"], "M": ["nway_shape(3)"]}}}})
     for s in specs:
         s["want_loop_order"] = [False] * len(s["einsums"])
         s["info"] = [{"ranks": None, "shape": {"hand": 1}} for _ in s["einsums"]]
